@@ -37,6 +37,10 @@ def registry():
         util_py.register(_REG, PROPERTIES)
         from . import paths_py
         paths_py.register(_REG, PROPERTIES)
+        from . import names_py
+        names_py.register(_REG, PROPERTIES)
+        from . import refmgr_py
+        refmgr_py.register(_REG, PROPERTIES)
         from . import serialize_py
         serialize_py.register(_REG, PROPERTIES)
         from . import registry_py
@@ -45,4 +49,5 @@ def registry():
         properties.register(_REG, PROPERTIES)
         properties.register2(_REG, PROPERTIES)
         properties.register3(_REG, PROPERTIES)
+        properties.register4(_REG, PROPERTIES)
     return _REG
